@@ -72,9 +72,9 @@ func genC07Claim(t *rapid.T) c07Claim {
 		}
 	})
 	return c07Claim{
-		API:  api,
-		I:    rapid.Uint32().Draw(t, "i"),
-		S:    rapid.Uint32().Draw(t, "s"),
+		API: api,
+		I:   rapid.Uint32().Draw(t, "i"),
+		S:   rapid.Uint32().Draw(t, "s"),
 		// one claim in five stays honest (must verify); the others carry 1..3 mutations
 		Muts: rapid.OneOf(rapid.SliceOfN(genMut, 1, 3), rapid.SliceOfN(genMut, 1, 3), rapid.SliceOfN(genMut, 1, 1),
 			rapid.SliceOfN(genMut, 2, 3), rapid.SliceOfN(genMut, 0, 0)).Draw(t, "muts"),
